@@ -8,7 +8,11 @@ CLAIM = {
                "CheckIntegrity compared with the rules inside Coq on arbitrary byte strings; exhaustive bit-flip / burst / truncation / suffix Go oracle on encoder outputs",
   "text": "Proved for regions (records ++ stored CRC) of any length: any burst of at most 16 consecutive bits (CRC bit order; single-bit flips included) anywhere in the region "
           "breaks the CRC rule; every proper prefix of an accepted sequence is rejected; an accepted sequence followed by bytes is read as the sequence, then the bytes (so a "
-          "suffix that is not itself valid sequences fails). Per run: CheckIntegrity's verdict and count equal the reference on arbitrary/mutated/chained byte strings "
+          "suffix that is not itself valid sequences fails). The MODEL of Decoder.CheckIntegrity (header, discardMessages in 765-byte reads with the running CRC, trailing "
+          "CRC, loop over chained sequences, any read-buffer size) returns for every byte string exactly the count and verdict of the rules with the two known deviations "
+          "(C04_model_is_rules), and those deviate from the reference only for 12-byte headers and 14-byte headers with a zero CRC field "
+          "(C04_deviations_only_in_known_classes); the encoder model's own 14-byte-header output is accepted (C04_encoder_output_accepted). Per run: the Go CheckIntegrity's "
+          "verdict and count equal the reference on arbitrary/mutated/chained byte strings "
           "(C04_reference, refuted for 12-byte headers and for 14-byte headers with a zero CRC field: known findings), and Decode as well as CheckIntegrity reject every "
           "single-bit flip, sampled bursts, every truncation and non-sequence suffixes of small encoder outputs.",
   "note": NOTE_COMMON + " The CRC table/compute are the translated ones of C18. That Decode (not only CheckIntegrity) fails is validated by the Go oracle, not proved."}
@@ -20,7 +24,8 @@ KNOWN = {1: ("legacy_header_file_crc", "12-byte header: CheckIntegrity accepts a
 def run(ctx):
     ctx.cov["rule"] = ("(1) encoder outputs <= 400 bytes (14-byte header): every single-bit position of records+CRC, 600 random bursts of 2..16 bits, every truncation length, 40 "
                        "suffixes per file, through CheckIntegrity and Decode; (2) random bytes, fixtures, mutated fixtures, headers with zeroed/wrong CRC or zero data size, 12-byte "
-                       "headers, chains, mutated chains through CheckIntegrity vs the reference rules; non-trivial = longer than 14 bytes; distinct by bytes")
+                       "headers, every declared header size 0..20/255 against 12- and 14-byte originals, chains, mutated chains through CheckIntegrity vs the reference rules, each also "
+                       "through a reader returning everything with io.EOF and a one-byte reader; non-trivial = longer than 14 bytes; distinct by bytes")
     ctx.cov["checker_cmd"] = "coq/build.sh Props/C04.vo Run/RunC04.vo; coqc Props/C04.v; coqc cases_C04_*.v (vm_compute: check_case, check_impl, class_is)"
     tr = ctx.prepare(parts=["dump-consts", "crc", "factory"])
     ok, _ = ctx.coq(["Props/C04.vo", "Run/RunC04.vo"])
